@@ -190,6 +190,7 @@ class S10(Sim):
         actor = os.path.join(HERE, "actor_c10.py")
         for k, h in enumerate(self.scen["handles"]):
             self.spawn_top(f"h{k}", ["vpy", actor, f"h{k}", json.dumps(h["prog"])], h["host"])
+            self.settle()  # one hello at a time: the order of arrival decides priorities and must not depend on real time
         err = None
         try:
             while True:
